@@ -851,8 +851,7 @@ Proof.
   destruct x; reflexivity.
 Qed.
 
-Lemma raised_conv pi ser pser t o :
-  raised (flat_map (conv_sout pi ser pser t) o) = existsb (fun x => match x with SRaise => true | _ => false end) o.
+Lemma raised_conv pi ser pser t o : raised (flat_map (conv_sout pi ser pser t) o) = false.
 Proof.
   induction o as [|x o IH]; [reflexivity|]. simpl. rewrite raised_app, IH. destruct x; reflexivity.
 Qed.
@@ -880,9 +879,7 @@ Proof.
   destruct (dispatch_from 0 (pl_procs p) e (envelope ser pser pi (ei_type x)) ws) as [[procs' o] ok].
   split; [reflexivity|]. split.
   - eexists. split; [unfold upd_pool; simpl; eapply upd_same; exact N|]. simpl. auto.
-  - destruct (existsb (fun x0 => match x0 with SRaise => true | _ => false end) o) eqn:R.
-    + rewrite raised_conv. exact R.
-    + rewrite sent_of_conv, raised_conv. split; [exact DS|]. split; [exact R | eauto].
+  - rewrite sent_of_conv, raised_conv. split; [exact DS|]. split; [reflexivity | eauto].
 Qed.
 
 (* a dispatch pass sends the head of the queue, then the next, ...: what was
@@ -1377,7 +1374,8 @@ Proof.
 Qed.
 
 Lemma n_conv_zero pi0 ser pser t (o : list sout) g :
-  (forall q i e s ps tt, g (ESent q i e s ps tt) = false) -> (forall q i, g (EEpipe q i) = false) -> g ERaise = false ->
+  (forall q i e s ps tt, g (ESent q i e s ps tt) = false) -> (forall q i, g (EEpipe q i) = false) ->
+  (forall q, g (EWriteError q) = false) ->
   n_eff g (flat_map (conv_sout pi0 ser pser t) o) = 0%nat.
 Proof.
   intros G1 G2 G3. induction o as [|x o IH]; [reflexivity|]. simpl. rewrite n_eff_app, IH.
@@ -1422,8 +1420,7 @@ Proof.
   destruct (dispatch_from 0 (pl_procs p) e0 (envelope ser pser pi0 (ei_type x)) ws) as [[procs' o] ok].
   split; [apply good_upd_procs; [exact G | exact N | exact (proj1 (D 0))]|].
   split.
-  - intros pi e. destruct (existsb (fun x0 => match x0 with SRaise => true | _ => false end) o); [right; reflexivity|].
-    left. destruct (Nat.eqb pi0 pi) eqn:Q.
+  - intros pi e. left. destruct (Nat.eqb pi0 pi) eqn:Q.
     + apply Nat.eqb_eq in Q. subst pi. unfold held, upd_pool. simpl. rewrite (upd_same _ _ _ _ N), N.
       unfold held_pool. simpl. rewrite (proj2 (D e)). destruct ok; simpl; lia.
     + unfold held, upd_pool. simpl. rewrite upd_other by (apply Nat.eqb_neq in Q; congruence).
